@@ -20,7 +20,7 @@ use verif_harness::*;
 // ------------------------------------------------------------------------------- Known_C01 (href)
 // the href setter is the URL parser without a base: it inherits Known_C01 (same text as in c01.rs;
 // the Coq version is Model/KnownC01.v, compared through the request `known07 … href …`)
-use verif_harness::known01::is_special_scheme;
+use verif_harness::known01::{has_drive_segment, is_special_scheme};
 /// Known_C01 without a base: 0 = not known, 1..4 = class (harness/src/known01.rs)
 fn known_c01_nobase(input: &str) -> u32 {
     verif_harness::known01::known_c01(None, input)
